@@ -115,7 +115,7 @@ def model_checks(ctx):
 
 def run(ctx):
     from harness import growth
-    growth.rdp_steps(ctx)
+    growth.safe(ctx, growth.rdp_steps)
     ctx.rule = ("T: adversarial curves x the full configuration product; sampled grid curves (n<=6, y<=3, spacings 1..3), "
                 "random families, bundled-trace windows x sampled configurations of the 5 simplifiers. "
                 "non-trivial: the call refines at least once (a point beyond the two ends is retained or dropped) "
